@@ -685,6 +685,7 @@ func stmtXMapRange(u *Unit, st *State, x *ast.CallExpr, recvExpr ast.Expr, lhs [
 		for _, o := range outs {
 			if o.ctl == "break" {
 				o.ctl = ""
+				o.leftLoop = true
 			}
 		}
 		return outs
